@@ -517,7 +517,9 @@ func replay(t *testing.T) {
 	if err != nil {
 		t.Fatal(err)
 	}
-	res := runScenario(t, sc, plan, Ctl{Seed: rf.Seed, Replay: rf.Decisions, Guided: false})
+	// inside an overlap window the tasks really run at the same time, so a race-mode schedule is
+	// followed as far as it applies (guided), not demanded step by step
+	res := runScenario(t, sc, plan, Ctl{Seed: rf.Seed, Replay: rf.Decisions, Guided: raceOverlap > 1})
 	out := map[string]any{"infra": res.Infra, "end": res.End, "steps": res.Steps, "violations": res.Violations}
 	got := findClass(res, rf.Violation)
 	out["reproduced"] = got != nil && res.Infra == ""
